@@ -120,6 +120,7 @@ class World:
         self.groups = {}         # ("m"|"p", name) -> FnInfo
         self.mod_text = {}
         self.attr_stores = []
+        self.spans = {}          # (rel, line) -> last line of the statement / call starting there
         self.load()
 
     def load(self):
@@ -252,6 +253,7 @@ class Tr:
         self.vars = {}
         self.names = []
         self.kind = {}
+        self.NIL = -1
         self.local_fns = {}     # name -> FnInfo of nested defs
         self.newobj = {}        # var -> True if it certainly names a tensor object created inside this function
         self.scopes = []        # comprehension scopes: name -> var
@@ -276,6 +278,11 @@ class Tr:
         return i
 
     def emit(self, st):
+        if st[0] == "assign" and st[1] == self.NIL:
+            if st[2][0] == "fresh":
+                return
+            # never overwrite the storage-less value: redirect to a new temporary (its value is not read again)
+            st = ("assign", self.tmp("sink"), st[2])
         self.stack[-1].append(st)
 
     def setkind(self, v, k):
@@ -289,6 +296,8 @@ class Tr:
         return ("seq", self.stack.pop())
 
     def assign(self, x, rhs, kind="U"):
+        if x == self.NIL:
+            x = self.tmp("sink")
         self.emit(("assign", x, rhs))
         self.setkind(x, kind)
         if rhs[0] == "same":
@@ -299,6 +308,8 @@ class Tr:
         return x
 
     def fresh(self, kind="U", hint="f"):
+        if kind in ("N", "G"):
+            return self.NIL                   # constants / sizes / modules: a value without any storage
         t = self.tmp(hint)
         self.emit(("assign", t, ("fresh",)))
         self.kind[t] = kind
@@ -335,6 +346,9 @@ class Tr:
         for n in fi.free:
             self.kind[self.var(n)] = "U"
         nform = len(self.names)
+        self.NIL = self.tmp("nil")            # never assigned: reaches no storage
+        self.kind[self.NIL] = "N"
+        self.newobj[self.NIL] = True
         body = node.body if isinstance(node.body, list) else [ast.Return(value=node.body, lineno=node.lineno)]
         ir = self.block(body)
         stmts = ir[1]
@@ -348,6 +362,8 @@ class Tr:
 
     # -- statements
     def stmt(self, s):
+        k = (self.fi.rel, s.lineno)
+        self.W.spans[k] = max(self.W.spans.get(k, 0), getattr(s, "end_lineno", s.lineno) if not isinstance(s, (ast.If, ast.For, ast.While, ast.With, ast.Try, ast.FunctionDef)) else s.lineno)
         m = getattr(self, "s_" + type(s).__name__, None)
         if m is None:
             for e in ast.iter_child_nodes(s):
@@ -482,8 +498,13 @@ class Tr:
         if isinstance(t, ast.Name):
             x = self.var(t.id)
             k = self.kind.get(x, "U")
-            if k == "N":
+            if k == "N" and vk in ("N", "G"):
                 self.assign(x, ("fresh",), "N")
+            elif k == "N":
+                # `n = 0; n += tensor`: the first round rebinds (int has no __iadd__), later rounds update in place
+                self.emit(("write", x, s.lineno, "augmented-assignment"))
+                self.emit(("assign", x, ("maybeView", x)))
+                self.kind[x] = "U"
             elif k == "C":
                 self.emit(("assign", x, ("join", [x, v])))
             else:
@@ -931,13 +952,7 @@ class Tr:
         return args
 
     def none(self):
-        if "%none" not in self.vars:
-            # bound at first use (fresh, reaches nothing old)
-            pass
-        t = self.tmp("none")
-        self.emit(("assign", t, ("fresh",)))
-        self.kind[t] = "N"
-        return t
+        return self.NIL
 
     def bind_group(self, g, pos, kws, rest):
         out, extra = {}, []
@@ -972,6 +987,8 @@ class Tr:
     def e_Call(self, e):
         f = e.func
         line = e.lineno
+        k = (self.fi.rel, line)
+        self.W.spans[k] = max(self.W.spans.get(k, 0), e.end_lineno)
         pos, star, kws, dstar = self.call_args(e)
         posv = [v for v, _ in pos]
         kwv = {k: v for k, (v, _) in kws.items()}
@@ -1390,6 +1407,8 @@ def build():
                 names.append("%contract")
                 stmts += [("assign", r, ("opq", list(range(1, nform)))), ("ret", r)]
             g.body, g.nparams, g.nvars, g.varnames = ("seq", stmts), nform, nxt, names
+    for fi in W.fns:
+        slim(fi)
     return W, None
 
 
@@ -1463,6 +1482,150 @@ def lean_ident(fi):
     return f"f{fi.idx}_{s}"[:120]
 
 
+def _reads(st, acc):
+    op = st[0]
+    if op == "seq":
+        for s in st[1]:
+            _reads(s, acc)
+    elif op == "assign":
+        r = st[2]
+        if r[0] in ("view", "maybeView", "same"):
+            acc.add(r[1])
+        elif r[0] in ("opq", "join"):
+            acc.update(r[1])
+    elif op in ("write", "ret"):
+        acc.add(st[1])
+    elif op == "call":
+        acc.update(st[3])
+    elif op == "if":
+        _reads(st[1], acc)
+        _reads(st[2], acc)
+    elif op == "while":
+        _reads(st[1], acc)
+
+
+def _prune(st, live):
+    op = st[0]
+    if op == "seq":
+        out = []
+        for s in st[1]:
+            s2 = _prune(s, live)
+            if s2 is not None:
+                if s2[0] == "seq":
+                    out.extend(s2[1])
+                else:
+                    out.append(s2)
+        return ("seq", out)
+    if op == "assign":
+        return st if st[1] in live else None
+    if op == "if":
+        def blk(x):
+            x = _prune(x if x[0] == "seq" else ("seq", [x]), live)
+            return x
+        a, b = blk(st[1]), blk(st[2])
+        if not a[1] and not b[1]:
+            return None
+        return ("if", a, b)
+    if op == "while":
+        b = _prune(st[1] if st[1][0] == "seq" else ("seq", [st[1]]), live)
+        return ("while", b) if b[1] else None
+    return st
+
+
+def _rename(st, m):
+    op = st[0]
+    if op == "seq":
+        return ("seq", [_rename(s, m) for s in st[1]])
+    if op == "assign":
+        r = st[2]
+        if r[0] in ("view", "maybeView", "same"):
+            r = (r[0], m[r[1]])
+        elif r[0] in ("opq", "join"):
+            r = (r[0], sorted({m[v] for v in r[1]}))
+        return ("assign", m[st[1]], r)
+    if op == "write":
+        return ("write", m[st[1]]) + tuple(st[2:])
+    if op == "ret":
+        return ("ret", m[st[1]])
+    if op == "call":
+        return ("call", m[st[1]], st[2], [m[v] for v in st[3]], st[4])
+    if op == "if":
+        return ("if", _rename(st[1], m), _rename(st[2], m))
+    if op == "while":
+        return ("while", _rename(st[1], m))
+    raise ValueError(op)
+
+
+def slim(fi):
+    """remove assignments to variables that are never read, then renumber the variables compactly
+    (formals keep their numbers).  Taint-neutral: a variable that is never read influences nothing."""
+    body = fi.body
+    for _ in range(20):
+        live = set(range(fi.nparams))
+        _reads(body, live)
+        new = _prune(body, live)
+        if new == body:
+            break
+        body = new
+    used = set(range(fi.nparams))
+    _reads(body, used)
+
+    def defs(st, acc):
+        if st[0] == "seq":
+            for s in st[1]:
+                defs(s, acc)
+        elif st[0] in ("assign", "call"):
+            acc.add(st[1])
+        elif st[0] == "if":
+            defs(st[1], acc)
+            defs(st[2], acc)
+        elif st[0] == "while":
+            defs(st[1], acc)
+    defs(body, used)
+    m = {}
+    for v in sorted(used):
+        m[v] = v if v < fi.nparams else len([x for x in m.values()])
+    # formals first (identity), then the rest in increasing order
+    nxt = fi.nparams
+    m = {}
+    for v in sorted(used):
+        if v < fi.nparams:
+            m[v] = v
+        else:
+            m[v] = nxt
+            nxt += 1
+    fi.body = _rename(body, m)
+    names = [None] * nxt
+    for v, k in m.items():
+        names[k] = fi.varnames[v] if v < len(fi.varnames) else f"%v{v}"
+    fi.varnames, fi.nvars = names, nxt
+
+
+def write_lines(W, sigma):
+    """(relpath, line) of every source line covered by an IR `write` or by a call of a callee that mutates a formal"""
+    res = set()
+
+    def walk(fi, st):
+        op = st[0]
+        if op == "seq":
+            for x in st[1]:
+                walk(fi, x)
+        elif op == "if":
+            walk(fi, st[1])
+            walk(fi, st[2])
+        elif op == "while":
+            walk(fi, st[1])
+        elif op == "write" or (op == "call" and sigma[st[2]][0]):
+            line = st[2] if op == "write" else st[4]
+            rel = fi.rel
+            for ln in range(line, max(line, W.spans.get((rel, line), line)) + 1):
+                res.add((rel, ln))
+    for fi in W.fns:
+        if fi.kind != "group":
+            walk(fi, fi.body)
+    return res
+
+
 def roots_of(W):
     """functions containing a write (not a call) to a storage reachable from a formal that is not allowed"""
     res = []
@@ -1514,36 +1677,58 @@ def split_obligations(W, sigma):
     return ok, bad
 
 
-def emit_table(W, tag, bodies, sigma, invs, ok, bad, texts, CH=150):
+def emit_table(W, tag, bodies, sigma, invs, ok, bad, texts, CH=60):
+    """Lean files of one table: C13{tag}Sigma (summaries), C13{tag}IR<i> (function bodies of chunk i and the kernel-checked
+    conformance of that chunk, built in parallel), C13{tag}Table (assembly)."""
     fns = W.fns
     chunks = [fns[i:i + CH] for i in range(0, len(fns), CH)]
+    ns = f"LinOp.Generated.C13{tag}"
+
+    def summ(fi):
+        return f"⟨{lean_list(sigma[fi.idx][0])}, {lean_list(sigma[fi.idx][1])}⟩"
+    out = ["import LinOp.C13.Model", "-- GENERATED by harness/extract/c13_alias.py (do not edit)", f"namespace {ns}", "open LinOp.C13", "",
+           "/-- candidate summaries (mutated formals, formals the result may alias), checked by `tableOK` -/",
+           "def sigma : List Summary := [", ",\n".join("  " + summ(fi) for fi in fns) + "]", ""]
+    for ci, ch in enumerate(chunks):
+        out += [f"def sigma{ci} : List Summary := [", ",\n".join("  " + summ(fi) for fi in ch) + "]", ""]
+    cat = " ++ (".join(f"sigma{ci}" for ci in range(len(chunks))) + ")" * (len(chunks) - 1)
+    out += [f"theorem sigma_split : sigma = {cat} := by decide +kernel", "", f"end {ns}", ""]
+    texts[f"C13{tag}Sigma.lean"] = "\n".join(out)
 
     class V:      # view of a function with the invariants of this table
         pass
     for ci, ch in enumerate(chunks):
-        out = ["import LinOp.C13.Model", "-- GENERATED by harness/extract/c13_alias.py from /repo/linear_operator (do not edit)",
-               "set_option maxRecDepth 100000", f"namespace LinOp.Generated.C13{tag}", "open LinOp.C13", ""]
+        out = ["import LinOp.C13.Model", f"import LinOp.Generated.C13{tag}Sigma",
+               "-- GENERATED by harness/extract/c13_alias.py from /repo/linear_operator (do not edit)",
+               "set_option maxRecDepth 100000", f"namespace {ns}", "open LinOp.C13", ""]
         for fi in ch:
             v = V()
             v.invs, v.nvars = invs[fi.idx], fi.nvars
             out.append(f"/-- {fi.label} (line {fi.node.lineno if fi.node is not None else 0}); formals {fi.formals} -/")
             out.append(f"def {lean_ident(fi)} : Fn := ⟨{fi.nparams},\n {lean_stmt(bodies[fi.idx], v)}⟩")
             out.append("")
-        out += [f"end LinOp.Generated.C13{tag}", ""]
+        out += [f"def chunk{ci} : List Fn := [", ",\n".join(f"  {lean_ident(fi)}" for fi in ch) + "]", "",
+                f"/-- every function of this chunk conforms to its summary (kernel-evaluated analysis) -/",
+                f"theorem chunk{ci}_ok : tableOK sigma sigma{ci} chunk{ci} = true := by decide +kernel", "",
+                f"end {ns}", ""]
         texts[f"C13{tag}IR{ci}.lean"] = "\n".join(out)
-    out = [f"import LinOp.Generated.C13{tag}IR{ci}" for ci in range(len(chunks))]
-    out += ["-- GENERATED by harness/extract/c13_alias.py (do not edit)", f"namespace LinOp.Generated.C13{tag}", "open LinOp.C13", "",
-            "/-- the function table: index = callee id used by `Stmt.call` -/", "def table : List Fn := ["]
-    out.append(",\n".join(f"  {lean_ident(fi)}" for fi in fns) + "]")
-    out += ["", "/-- candidate summaries (mutated formals, formals the result may alias), checked by `tableOK` -/",
-            "def sigma : List Summary := ["]
-    out.append(",\n".join(f"  ⟨{lean_list(sigma[fi.idx][0])}, {lean_list(sigma[fi.idx][1])}⟩" for fi in fns) + "]")
-    out += ["", "/-- (function id, allowed formals): the obligations that hold — public functions / methods of the package -/",
+    out = ["import LinOp.C13.Proofs"] + [f"import LinOp.Generated.C13{tag}IR{ci}" for ci in range(len(chunks))]
+    cat = " ++ (".join(f"chunk{ci}" for ci in range(len(chunks))) + ")" * (len(chunks) - 1)
+    proof = ""
+    for ci in range(len(chunks) - 1):
+        proof += f"tableOK_append _ _ _ _ _ chunk{ci}_ok ("
+    proof += f"chunk{len(chunks) - 1}_ok" + ")" * (len(chunks) - 1)
+    out += ["-- GENERATED by harness/extract/c13_alias.py (do not edit)", f"namespace {ns}", "open LinOp.C13", "",
+            "/-- the function table: index = callee id used by `Stmt.call` -/", f"def table : List Fn := {cat}", "",
+            "theorem table_ok : tableOK sigma sigma table = true := by",
+            "  have h := " + proof,
+            "  rw [← sigma_split] at h", "  exact h", "",
+            "/-- (function id, allowed formals): the obligations that hold — public functions / methods of the package -/",
             "def obligations : List (Nat × List Nat) := ["]
     out.append(",\n".join(f"  ({fi.idx}, {lean_list(allowed_formals(fi))})" for fi in ok) + "]")
     out += ["", "/-- obligations the analysis rejects for this table (reported by the harness) -/",
             "def flagged : List Nat := " + lean_list([fi.idx for fi in bad]), "",
-            f"end LinOp.Generated.C13{tag}", ""]
+            f"end {ns}", ""]
     texts[f"C13{tag}Table.lean"] = "\n".join(out)
 
 
@@ -1568,7 +1753,7 @@ def generate(known_root=lambda label: False):
     emit_table(W, "P", bodiesP, sigmaP, invsP, okP, badP, texts)
     gen_dir = os.path.join(LEAN, "LinOp", "Generated")
     for f in os.listdir(gen_dir):
-        if re.match(r"C13P?IR\d+\.lean$", f) and f not in texts:
+        if re.match(r"C13P?(IR\d+|Sigma|Table)\.lean$", f) and f not in texts:
             os.remove(os.path.join(gen_dir, f))
     for name, text in texts.items():
         path = os.path.join(gen_dir, name)
